@@ -58,7 +58,7 @@ def spec(tier, seed):
     for (nm, text, strip, kind, old, new, ren, nh, nf) in (DIALECTS if not q else DIALECTS[:9]):
         call = "t_dialect(%s, %d, %d, %s, %s, %s, %d, %d)" % (bytes_lit(text), strip, kind, bytes_lit(old), bytes_lit(new), str(ren).lower(), nh, nf)
         inst.append(Instance("c01l2_%s" % nm, "parser", call, unwind=max(len(text), 60) + 4, unwindset={"memcmp.0": 20}, stubs=[FROM_UTF8_STUB],
-                             mem_gb=24, timeout_s=2400, sub="C01 lemma 2/4: header dialect end to end (concrete)", must_cover=["dialect parsed"],
+                             mem_gb=16, timeout_s=2400, sub="C01 lemma 2/4: header dialect end to end (concrete)", must_cover=["dialect parsed"],
                              params=dict(dialect=nm, strip=strip)))
     for L, qd in ((4, False), (4, True)) if q else ((3, False), (5, False), (3, True), (5, True)):
         inst.append(Instance("c01l2_filename_%d_%s" % (L, "quoted" if qd else "plain"), "parser", "t_filename_value::<%d>(%s)" % (L, str(qd).lower()),
